@@ -19,6 +19,7 @@ def main() -> int:
     a = ap.parse_args()
     tier = a.tier or common.tier_from_env()
     seed = common.seed_from_env()
+    common.CURRENT_TIER = tier
     try:
         mod = importlib.import_module(f"harness.{a.prop.lower()}")
     except ModuleNotFoundError:
